@@ -191,17 +191,21 @@ TRUSTED = [
     "harness/translate_names.py (trusted, fail-closed) reads Pin (must remain a frozen dataclass over (basename, mode_name) with no "
     "hand-written equality), Pin.name, Model.update_pins and Model.pin_mapping from the current source and "
     "coq/templates/NamesSrcProof.v proves them equal to Names.pin_name / update_pins / update_pins o rename_pins for all pin lists "
-    "and renamings; (b) by this correspondence run (sampled)",
+    "and renamings; and for Solver.connect: harness/translate_wiring.py executes the current source of the guarded command "
+    "symbolically over Wiring.wstate and coq/templates/WiringSrcProof.v proves it equal to Wiring.step s (Connect x y) for every "
+    "state (which tests, in which order, what is already written at a refusal); (b) by this correspondence run (sampled)",
     "harness: history generator with deliberately invalid calls, observation of the public tables after every call",
 ]
 
 if __name__ == "__main__":
     import translate_names
+    import translate_wiring
     from common import source_obligation
     main("C16", [InvalidStream(), ByNameStream(), NameStream()],
          source_obligations=[source_obligation(
              "NamesSrc_C16", translate_names.translate, "NamesSrcProof.v",
-             ["pin_name_src_is_pin_name", "update_pins_src_is_update_pins", "pin_mapping_src_is_model"])],
+             ["pin_name_src_is_pin_name", "update_pins_src_is_update_pins", "pin_mapping_src_is_model"]),
+             source_obligation("WiringSrc_C16", translate_wiring.translate, "WiringSrcProof.v", ["connect_src_is_step"])],
          level_text="props/C16.v: in every state a connected pin is refused for any other partner in either argument "
                     "position with the state untouched; repeating a connect in either orientation is a no-op; every "
                     "validation failure of connect/add leaves the state untouched (partial: see level_note); colliding pin "
